@@ -30,7 +30,7 @@ var Check = &ev.Check{
 	Rule: "server family: internal/envelope.Server over internal/multiplex handlers (Svc, Svc:ns, Outer->Inner, empty) for 13 names with 0..3 colons x 2 framings x 5 seqids x 3 bodies, dispatch by the first colon, reply type/name/seqid/body; chains of <=2 multiplex clients over the envelope client x 5 method names against that server. structured family: name in {a, Svc:method, 255*x, non-UTF8, NUL-containing, 65536*n; thorough +65535 and 65793 bytes} x envelope type 0..127 (all) x seqid in {0,1,-1,min,max} x body in {empty, one i32, nested struct+list} " +
 		"x framing {strict, legacy, bare} x expected type {Call, OneWay} x API {DecodeRequest, ReadRequest} x reader {non-seekable, seekable} x read segmentations (all <=2-cut chunkings for messages <=24 bytes; " +
 		"whole, all-1-byte, first-read-1-byte, zero-length reads and every single cut beyond); plus envelope encode/decode round trips through the value and stream APIs against ref/tbin bytes. " +
-		"classification family: every byte string of length<=5 (quick) / <=6 (thorough) over {00,01,02,04,08,0b,0c,0f,7f,80,81,ff} under all <=2-cut chunkings. " +
+		"classification family: every byte string of length<=5 (quick) / <=6 (thorough) over {00,01,02,04,08,0b,0c,0f,7f,80,81,ff}, and every strict / legacy message with the EMPTY name x type 0..127 x 5 seqids x 3 bodies, under all <=2-cut chunkings. sequence family: every ordered pair (a,b) and triple (a,b,a) of 16 requests on ONE server, all replies held to the end (unchanged, each echoing its own request). " +
 		"A case is one (message, expected type); cases are distinct by construction; every case is non-trivial (it exercises framing detection).",
 	Run: run,
 	Budget: func(t string) time.Duration {
